@@ -202,6 +202,10 @@ func (c *SchemaCtx) IssueFromUnknownError(err error) *ZogIssue {
 	if !ok {
 		return c.Issue().SetError(err)
 	}
+	// issues built outside a schema (e.g. the zjson/zhttp decode failures) carry no type, without which no message can be found
+	if zerr.Dtype == "" {
+		zerr.Dtype = c.DType
+	}
 	return zerr
 }
 
